@@ -330,10 +330,27 @@ def snapKindDue (n : Node) : SnapKind := if n.fullNeeded then .full else .increm
 /-- the meaning of step `.refuseIncrementalIfFullDue` -/
 def sinkRefuses (kind : SnapKind) (n : Node) : Bool := kind == .incremental && n.fullNeeded
 
-/-- `Sink.Close` of a snapshot of the given kind; `true` = refused: the temp directory is
-removed, nothing is installed, the requirement stays -/
+/-- the state of a `Sink.Close` in progress -/
+structure SinkRun where
+  n       : Node
+  refused : Bool := false     -- Close has returned the refusal
+
+/-- one step of `Sink.Close` for a snapshot of the given kind. Step `.refuseIncrementalIfFullDue`
+READS the requirement: an incremental snapshot while a full one is due is refused — the temp
+directory is removed and no later step runs. Every other step is `sinkStep` (which is this
+function specialised to the full snapshots a sequential history takes). -/
+def sinkStepK (kind : SnapKind) (finalizerOk : Bool) (x : SinkRun) (st : SinkStep) : SinkRun :=
+  if x.refused then x else
+  match st with
+  | .refuseIncrementalIfFullDue =>
+    if sinkRefuses kind x.n then { n := { x.n with snapTmp := none }, refused := true } else x
+  | st => { x with n := sinkStep finalizerOk x.n st }
+
+/-- `Sink.Close` of a snapshot of the given kind = the fold of its step list; `true` = refused:
+nothing is installed, the requirement stays -/
 def sinkCloseK (kind : SnapKind) (finalizerOk : Bool) (n : Node) : Node × Bool :=
-  if sinkRefuses kind n then ({ n with snapTmp := none }, true) else (sinkClose finalizerOk n, false)
+  let r := sinkCloseSteps.foldl (sinkStepK kind finalizerOk) { n := n }
+  (r.n, r.refused)
 
 /-- raft `compactLogs`: keep `trailing` entries behind the snapshot -/
 def snapCompact (n : Node) (trailing : Nat) : Node :=
